@@ -13,35 +13,46 @@ def run(ctx):
     ctx.explanation = EXPL
     ctx.assumptions = ["rustc's type checker (stable toolchain of the repository)", "hannibal-derive is not used by the witnesses (impls are written out)"]
     V = core.V
-    cmd = [sys.executable, os.path.join(V, "witness", "run.py"), "--repo", ctx.repo]
-    p = subprocess.run(cmd, capture_output=True, text=True)
-    try:
-        res = json.loads(p.stdout.strip().splitlines()[-1])
-    except Exception:
-        raise RuntimeError("witness runner failed: %s %s" % (p.stdout[-500:], p.stderr[-500:]))
-    if res.get("lib_broken"):
-        import facts
-        raise facts.BuildFailed("hannibal itself does not compile for the witness package: %s" % res.get("stderr_tail"))
-    ctx.cfgs_used.append("stable toolchain, default features (tokio)")
-    n = res["programs"]
-    ctx.floor("R19", "witness programs", n, 100)
+    feats = [None] if ctx.tier == "quick" else [None, "smol_runtime", "async_runtime"]
+    all_results = []
     rules = {}
-    for r in res["results"]:
-        kind = "fail" if r["id"].endswith("_fail") else "twin"
-        short = r["id"].rsplit("_", 1)[0]
-        inst = "%s:%s:%s" % (short, r["entry"], kind)
-        rules.setdefault(r["rule"], 0)
-        rules[r["rule"]] += 1
-        if r["ok"]:
-            ctx.ok("R19." + short[0], inst, "witness/catalogue.py:" + short, {"verdict": r["verdict"], "codes": [e["code"] for e in r["errors"]]})
-        else:
-            if kind == "fail" and r["verdict"] == "COMPILES":
-                msg = "the compiler accepts an ill-typed use: rule `%s` is no longer enforced at %s" % (r["rule"], r["entry"])
-            elif kind == "fail":
-                msg = "rejected, but not for the expected reason (expected %s): %s" % (r["expected"], r["errors"])
+    n = 0
+    for feat in feats:
+        cmd = [sys.executable, os.path.join(V, "witness", "run.py"), "--repo", ctx.repo] + (["--features", feat] if feat else [])
+        p = subprocess.run(cmd, capture_output=True, text=True)
+        try:
+            res = json.loads(p.stdout.strip().splitlines()[-1])
+        except Exception:
+            raise RuntimeError("witness runner failed: %s %s" % (p.stdout[-500:], p.stderr[-500:]))
+        if res.get("lib_broken"):
+            import facts
+            if feat is None:
+                raise facts.BuildFailed("hannibal itself does not compile for the witness package: %s" % res.get("stderr_tail"))
+            ctx.note("feature %s does not build for the witness package: skipped" % feat)
+            ctx.skipped_cfgs.append(feat)
+            continue
+        tag = "" if feat is None else "@" + feat
+        ctx.cfgs_used.append("stable toolchain, " + (feat or "default features (tokio)"))
+        n += res["programs"]
+        for r in res["results"]:
+            kind = "fail" if r["id"].endswith("_fail") else "twin"
+            short = r["id"].rsplit("_", 1)[0]
+            inst = "%s:%s:%s%s" % (short, r["entry"], kind, tag)
+            rules.setdefault(r["rule"], 0)
+            rules[r["rule"]] += 1
+            all_results.append(r)
+            if r["ok"]:
+                ctx.ok("R19." + short[0], inst, "witness/catalogue.py:" + short, {"verdict": r["verdict"], "codes": [e["code"] for e in r["errors"]]})
             else:
-                msg = "the well-typed twin no longer compiles (API change?): %s" % r["errors"]
-            ctx.viol("R19." + short[0], inst, msg, fn=r["entry"], site="witness/catalogue.py:" + short)
+                if kind == "fail" and r["verdict"] == "COMPILES":
+                    msg = "the compiler accepts an ill-typed use: rule `%s` is no longer enforced at %s" % (r["rule"], r["entry"])
+                elif kind == "fail":
+                    msg = "rejected, but not for the expected reason (expected %s): %s" % (r["expected"], r["errors"])
+                else:
+                    msg = "the well-typed twin no longer compiles (API change?): %s" % r["errors"]
+                ctx.viol("R19." + short[0], inst, msg, fn=r["entry"], site="witness/catalogue.py:" + short)
+    ctx.floor("R19", "witness programs", n, 100)
+    res = {"results": all_results}
     n_ok = sum(1 for r in res["results"] if r["ok"])
     return core.finish(ctx, level="proof", extra_cov={"obligations": n, "discharged": n_ok, "programs": n, "rules_covered": rules},
                        trusted=["rustc type checker and trait solver", "cargo (path dependency on /repo, Cargo.lock copied from /repo)"],
